@@ -261,5 +261,5 @@ def compare(binary, t1, t2, stats):
                 i, ins[0], ins[1], rip - base, [hex(x) for x in a1], [hex(x) for x in a2])
     stats['unclassified_steps'] = stats.get('unclassified_steps', 0) + unclassified
     stats['memory_operands_compared'] = stats.get('memory_operands_compared', 0) + memops
-    stats['distinct_rips'] = max(stats.get('distinct_rips', 0), len(plan_cache))
+    stats['max_distinct_rips_in_one_trace'] = max(stats.get('max_distinct_rips_in_one_trace', 0), len(plan_cache))
     return None
